@@ -9,7 +9,8 @@ Ltac idx3 i := destruct i as [|[|[|i]]]; [| | |exfalso; lia].
 Ltac idx4 i := destruct i as [|[|[|[|i]]]]; [| | | |exfalso; lia].
 Ltac lz := cbv [leibniz perms seq flat_map insert_all map app fold_right sgn inversions filter length
                 Nat.ltb Nat.leb Nat.even Nat.add prod_diag].
-Ltac unf := cbv [iso_detDF_1 iso_detDF_2 iso_detDF_3 iso_invDF_1 iso_invDF_2 iso_invDF_3 iso_detDGsq_2 iso_detDGsq_3
+Ltac unf := cbv [isoF isoJ p1_phi_1 p1_phi_2 p1_phi_3 p1_dphi_1 p1_dphi_2 p1_dphi_3
+                 iso_detDF_1 iso_detDF_2 iso_detDF_3 iso_invDF_1 iso_invDF_2 iso_invDF_3 iso_detDGsq_2 iso_detDGsq_3
                  mapF mapInvF mapG normal_raw vdot vsub matmul sel bary fsum delta Nat.eqb Nat.sub nth
                  aff_A_1 aff_b_1 aff_detA_1 aff_invA_1 aff_B_1 aff_c_1 aff_detBsq_1
                  aff_A_2 aff_b_2 aff_detA_2 aff_invA_2 aff_B_2 aff_c_2 aff_detBsq_2
